@@ -707,6 +707,10 @@ def rotations(c, rebound, exe):
         # variational particles with NON-ZERO data: reb_simulation_irotate must rotate all N particles, a variation
         # being the derivative of a vector transforms with the same (linear) rotation (theorem c20_rotate_variations)
         vmode = i % 4
+        if N >= 3 and i % 2 == 1:
+            sim.N_active = rng.randint(1, N - 1)      # test particles are rotated like everything else
+            sim.testparticle_type = i % 4 // 2
+            dim("roles: N_active < N / test particles (frame ops)")
         v1 = None
         if vmode in (1, 2):
             v1 = sim.add_variation()
@@ -906,9 +910,9 @@ def frame(c, rebound, exe):
             return rng.uniform(0.5, 1.5)
         return rng.choice([1e-12, 1e-3, 1.0, 10.0])
 
-    def make_sim(rng, nvar_cfg):
+    def make_sim(rng, nvar_cfg, bigN=None):
         sim = rebound.Simulation()
-        N = rng.choice([1, 2, 2, 3, 3, 4, 5, 8, 13])
+        N = bigN or rng.choice([1, 2, 2, 3, 3, 4, 5, 8, 13])
         kind = rng.randint(0, 3)
         off = rng.normal() * rng.choice([0, 1, 100])
         for i in range(N):
@@ -919,6 +923,15 @@ def frame(c, rebound, exe):
                     vx=rng.normal(), vy=off + rng.normal(), vz=rng.normal())
         if all(p.m == 0 for p in sim.particles) and rng.chance(0.7):
             sim.particles[N - 1].m = 1.0
+        # particle roles: the frame routines sum over all N_real particles whatever N_active / testparticle_type say
+        if N >= 2 and rng.chance(0.4):
+            sim.N_active = rng.randint(1, N - 1)
+            sim.testparticle_type = rng.randint(0, 1)
+            dim("roles: N_active < N / test particles (frame ops)")
+        if any(p.m == 0 for p in sim.particles):
+            dim("roles: zero-mass and leading massless bodies (frame ops)")
+        if abs(off) >= 50:
+            dim("geometry: centre of mass far from the origin and moving")
         cfgs = []
         firsts = []
         for v in range(nvar_cfg):
@@ -948,6 +961,7 @@ def frame(c, rebound, exe):
 
     nsim = 5000 if c.thorough else 250
     untouched_hel = 0
+    mixed_iadd = {}
     hel_votes = {}
     hel_fd = 0
     hel_fd_bad = 0
@@ -955,7 +969,16 @@ def frame(c, rebound, exe):
         try:
             r = rng.fork()
             nv = r.choice([0, 0, 1, 2, 3, 4])
-            sim, N, cfgs = make_sim(r, nv)
+            bigN = None
+            if case == 1:
+                bigN = 300
+            if c.thorough and case in (2, 3):
+                bigN = 1100 if case == 2 else 3000
+            sim, N, cfgs = make_sim(r, nv if not bigN else (1 if bigN <= 300 else 0), bigN)
+            if bigN:
+                dim("scale: N >= 300 (frame ops)")
+            for kd, _v in cfgs:
+                dim({"1": "variational: 1st order non-zero (frame ops)", "2": "variational: 2nd order non-zero (frame ops)", "t": "variational: test-particle variation (frame ops)"}[kd])
             pre = snapshot(sim)
             ncfg = sim.N_var_config
             vc = [(sim.var_config[v].order, sim.var_config[v].index, sim.var_config[v].testparticle,
@@ -1144,6 +1167,8 @@ def frame(c, rebound, exe):
                 lines.append("iadd %d %s" % (sim.N, hv(*xs, *ys))); expect.append(exp); meta.append(("iadd", k, sim.N))
                 exp = ("ok " + " ".join(d2h(psub[i][col]) for i in range(sim.N))) if rc2 == 0 else "err -1"
                 lines.append("isub %d %s" % (sim.N, hv(*xs, *ys))); expect.append(exp); meta.append(("isub", k, sim.N))
+            if sim.N != simb.N:
+                dim("operators: different N rejected")
             if (rc == -1) != (sim.N != simb.N) or (rc2 == -1) != (sim.N != simb.N):
                 fails.append(("iadd-size", "iadd/isub size check wrong", dict(N=sim.N, N2=simb.N, rc=rc, rc2=rc2)))
             if rc == -1 and pa != pre:
@@ -1169,6 +1194,18 @@ def frame(c, rebound, exe):
                     fails.append(("py-add", "Simulation + Simulation of different N did not raise", dict(N=sim.N, N2=simb.N)))
                 except RuntimeError:
                     pass
+            if sim.N_var > 0 and case % 5 == 0:
+                # variational particles on one side only: same N, the other simulation all real.  reb_simulation_iadd only
+                # compares N, so real coordinates are silently added to variational ones (measured, not an error path)
+                allreal = rebound.Simulation()
+                for i in range(sim.N):
+                    allreal.add(m=1.0, x=float(i), vx=1.0)
+                sx = sim.copy()
+                rcx = clib.reb_simulation_iadd(ctypes.byref(sx), ctypes.byref(allreal))
+                dim("operators: variational particles on one side only")
+                mixed_iadd["accepted" if rcx == 0 else "rejected"] = mixed_iadd.get("accepted" if rcx == 0 else "rejected", 0) + 1
+                if rcx == 0 and any(sx.particles[i].x != pre[i][1] + float(i) for i in range(sim.N)):
+                    fails.append(("iadd-mixed", "iadd of an all-real simulation onto one with variational particles is not the component-wise sum", dict(N=sim.N, N_var=sim.N_var)))
             s1, s2 = r.normal() * 3, r.normal() * 3
             sm_ = sim.copy()
             clib.reb_simulation_imul(ctypes.byref(sm_), ctypes.c_double(s1), ctypes.c_double(s2))
@@ -1231,6 +1268,7 @@ def frame(c, rebound, exe):
             if first is None:
                 first = dict(routine=mt[0], component=mt[1], N=mt[2], op_line=l[:2000], model=g[:1000], impl=e[:1000])
     c.cov["frame_model_lines"] = len(lines)
+    c.cov["iadd_with_variational_particles_on_one_side_only"] = mixed_iadd
     hv0, hv1 = hel_match["move_to_hel_var0"], hel_match["move_to_hel_var1"]
     tp_votes = {k: v for k, v in hel_votes.items() if v}
     if hv0[0] == hv0[1] and not tp_votes.get("1") and not tp_votes.get("x"):
@@ -1275,9 +1313,9 @@ def histories(c, rebound):
     configs = [("ias15", None), ("whfast", 1), ("whfast", 0), ("leapfrog", None), ("mercurius", 1), ("mercurius", 0), ("trace", None),
                ("janus", None), ("saba", 1), ("saba", 0), ("eos", 1), ("eos", 0), ("bs", None)]
     label = {("ias15", None): "ias15", ("whfast", 1): "whfast safe_mode=1", ("whfast", 0): "whfast safe_mode=0 + recalculate flag",
-             ("leapfrog", None): "leapfrog", ("mercurius", 1): "mercurius", ("mercurius", 0): "mercurius", ("trace", None): "trace",
-             ("janus", None): "janus + recalculate flag", ("saba", 1): "saba safe_mode=0 + recalculate flag", ("saba", 0): "saba safe_mode=0 + recalculate flag",
-             ("eos", 1): "eos", ("eos", 0): "eos", ("bs", None): "bs"}
+             ("leapfrog", None): "leapfrog", ("mercurius", 1): "mercurius", ("mercurius", 0): "mercurius safe_mode=0", ("trace", None): "trace",
+             ("janus", None): "janus + recalculate flag", ("saba", 1): "saba safe_mode=1", ("saba", 0): "saba safe_mode=0 + recalculate flag",
+             ("eos", 1): "eos", ("eos", 0): "eos safe_mode=0", ("bs", None): "bs"}
     reps = 3 if c.thorough else 1
 
     def mk(integ, safe, dt, seedvals):
@@ -1344,7 +1382,7 @@ def histories(c, rebound):
                     else:
                         b.move_to_com()
                     e = diff(a, b)
-                    tol = 1e-8 if integ == "janus" else 1e-10
+                    tol = 1e-8 if integ == "janus" else (1e-7 if integ in ("bs", "ias15") else 1e-10)     # adaptive schemes: their own error tolerance
                     worst["%s/%s" % (integ if safe is None else "%s safe_mode=%d" % (integ, safe), op)] = max(worst.get("%s/%s" % (integ if safe is None else "%s safe_mode=%d" % (integ, safe), op), 0.0), e)
                     dim("history: op then continue, integrator " + label[(integ, safe)])
                     if sign < 0:
@@ -1463,11 +1501,14 @@ def units(c, rebound, exe, parsed, ref):
                     r.shuffle(spell)
                     if r.chance(0.3):
                         spell = [x.upper() for x in spell]
+                    dim("units: setter given a dict / upper case / any order")
+                    if kind == "set" and r.chance(0.25):
+                        spell = {"a": spell[0], "b": spell[1], "c": spell[2]}      # check_units takes the values of a dict
                     toks += ["S" if kind == "set" else "C", str(lnames.index(tr[0])), str(tnames.index(tr[1])), str(mnames.index(tr[2])),
                              d2h(Ls[tr[0]]), d2h(Ts[tr[1]]), d2h(Ms[tr[2]])]
                 try:
                     if kind == "set":
-                        sim.units = tuple(spell)
+                        sim.units = spell if isinstance(spell, dict) else tuple(spell)
                     else:
                         sim.convert_particle_units(*spell)
                     status.append("ok")
@@ -1475,7 +1516,9 @@ def units(c, rebound, exe, parsed, ref):
                     status.append("populated" if kind == "set" else "notset")
                 except Exception as ex:
                     status.append("bad")
-                desc.append((kind, tuple(spell), status[-1]))
+                desc.append((kind, tuple(spell.values()) if isinstance(spell, dict) else tuple(spell), status[-1]))
+                if kind == "conv" and status[-1] == "ok" and any(d_[0] == "G" for d_ in desc):
+                    dim("units: G assigned manually then convert")
             elif kind == "G":
                 g = r.loguniform(1e-12, 1e3)
                 sim.G = g
@@ -1617,14 +1660,44 @@ def units(c, rebound, exe, parsed, ref):
                 return dict(m1=float(m1_SI / Mm), m2=float(m2_SI / Mm), a=float(a_SI / L))
             q0 = to_units(exactL[l], exactT[t], exactM[m])
             v_SI = math.sqrt(float(Gq) * float(m1_SI + m2_SI) / float(a_SI))
-            sim.add(m=q0["m1"], r=float(Fr("7e8") / exactL[l]))
-            sim.add(m=q0["m2"], x=q0["a"], vy=float(Fr(v_SI) * exactT[t] / exactL[l]), r=float(Fr("7e7") / exactL[l]))
+            sim.add(m=q0["m1"], r=float(Fr("7e8") / exactL[l]), hash="primary")
+            if idx % 2 == 1:
+                # the companion given by orbital elements: a in the length unit, uses sim.G of this unit system
+                sim.add(m=q0["m2"], a=q0["a"], e=0.3, inc=0.4, Omega=1.0, omega=2.0, f=0.7, r=float(Fr("7e7") / exactL[l]), hash="companion")
+                dim("units: particles added by orbital elements")
+            else:
+                sim.add(m=q0["m2"], x=q0["a"], vy=float(Fr(v_SI) * exactT[t] / exactL[l]), r=float(Fr("7e7") / exactL[l]), hash="companion")
+            hashes0 = [pp.hash.value for pp in sim.particles]
+            if idx % 3 == 0:
+                sim.N_active = 1
+            sim.t = 5.0; sim.dt = 0.25
             sim.particles[1].ax = float(Fr("-5.9e-3") * exactT[t] ** 2 / exactL[l])   # some acceleration to convert
             P1 = sim.particles[1].orbit(primary=sim.particles[0]).P * Ts[t]
             e = abs(P1 - Pw) / Pw
             note("period_SI_invariance", e)
             if not e <= 1e-12:
                 fails.append(("units-period", "orbital period in seconds depends on the unit system %r: %.17g vs %.17g" % ((l, t, m), P1, Pw), dict(units=(l, t, m), P=P1, want=Pw)))
+            if idx % 60 == 7:
+                # units are persisted (python_unit_* hashes, cf. finding F12 on their field order) through every restore path,
+                # and a restored simulation converts exactly like the original
+                tmpf = os.path.join(os.environ.get("VERIF_TMP", "/tmp"), "c20u.%d.bin" % os.getpid())
+                sim.save_to_file(tmpf, delete_file=True)
+                import pickle
+                for nm_, s_r in (("archive", rebound.Simulation(tmpf)), ("copy", sim.copy()), ("pickle", pickle.loads(pickle.dumps(sim)))):
+                    l2_, t2_, m2_ = triples[perm[(idx + 13) % len(triples)]]
+                    s_o = sim.copy() if nm_ != "copy" else None
+                    okr = s_r.units == {"length": l, "time": t, "mass": m} and d2h(s_r.G) == d2h(sim.G)
+                    s_r.convert_particle_units(l2_, t2_, m2_)
+                    ref_ = sim.copy(); ref_.convert_particle_units(l2_, t2_, m2_)
+                    okr = okr and all(d2h(getattr(pa_, f_)) == d2h(getattr(pb_, f_)) for pa_, pb_ in zip(s_r.particles, ref_.particles) for f_ in fields) \
+                        and d2h(s_r.G) == d2h(ref_.G) and s_r.units == ref_.units
+                    dim("units: persisted through archive / copy / pickle")
+                    if not okr:
+                        fails.append(("units-restore:" + nm_, "units %r are not restored by %s (or the restored simulation converts differently)" % ((l, t, m), nm_), dict(units=(l, t, m), path=nm_, got=s_r.units)))
+                try:
+                    os.remove(tmpf)
+                except OSError:
+                    pass
             if idx % 4 == 0:
                 # variational particles are converted like the real ones (convert_particle_units loops over all N):
                 # a variation of a position / velocity / mass scales like a position / velocity / mass
@@ -1635,6 +1708,7 @@ def units(c, rebound, exe, parsed, ref):
                     for f_ in ("x", "y", "z", "vx", "vy", "vz", "ax", "ay", "az"):
                         setattr(pv, f_, rng.normal())
                 c.count(("convert-with-variations", idx % 40))
+                dim("variational: convert_particle_units")
             before = [[getattr(p, f) for f in fields] for p in sim.particles]
             for kk in range(ntarget):
                 l2, t2, m2 = triples[perm[(idx + kk * 577) % len(triples)]]
@@ -1645,6 +1719,12 @@ def units(c, rebound, exe, parsed, ref):
                     break
                 c.count(("convert", l2, t2, m2))
                 mid = [[getattr(p, f) for f in fields] for p in sim.particles]
+                if kk == 0:
+                    dim("units: hash / N_active / t / dt untouched by conversion")
+                    if [pp.hash.value for pp in sim.particles][:2] != hashes0[:2] or sim.N_active != (1 if idx % 3 == 0 else -1):
+                        fails.append(("units-convert-identity", "convert_particle_units changed particle hashes or N_active", dict(frm=(l, t, m), to=(l2, t2, m2))))
+                    # t and dt are NOT converted although the time unit changes (only particles and G are, as the docstring says): recorded
+                    c.cov["convert_particle_units_leaves_t_and_dt_unconverted"] = bool(sim.t == 5.0 and sim.dt == 0.25)
                 G2 = Gq * exactM[m2] * exactT[t2] ** 2 / exactL[l2] ** 3
                 if not abs(float((Fr(sim.G) - G2) / G2)) <= 4e-15 or sim.units != {"length": l2, "time": t2, "mass": m2}:
                     fails.append(("units-convert-G", "after convert_particle_units(%r) G / units are not those of the new system" % ((l2, t2, m2),), dict(frm=(l, t, m), to=(l2, t2, m2), G=sim.G, units=sim.units)))
@@ -1767,6 +1847,11 @@ def run(c):
     rotations(c, rebound, exe)
     frame(c, rebound, exe)
     units(c, rebound, exe, parsed, ref)
+    histories(c, rebound)
+    c.cov["dimensions"] = dict(sorted(DIMS.items()))
+    for name in REQUIRED_DIMS:
+        if DIMS.get(name, 0) == 0:
+            c.broken.append("dimension not covered: " + name)
     if c.broken and not c.violations:
         c.log("proof/correspondence broken: extra search budget")
         c.rng = SplitMix(c.seed * 7919 + 20)
